@@ -43,11 +43,32 @@ def gen_cases(rng, tier):
             a = rng.choice([1, 1, 1, 2, 3, 4]) if rng.chance(19, 20) else 0
             b += ALPHA[a]
         cases.append("14 | " + " ".join(map(str, [rng.below(4)] + b)))
-    return cases, {"exhaustive_len": L, "exhaustive_cases": len(seqs) * 4, "random_long": nrand}
+    # several strings in one case: a string with its prefixes, extensions, equal and unrelated ones (== / != / Hash are compared pairwise)
+    npairs = 150 if tier == "quick" else 3000
+    r2 = rng.fork("pairs")
+    fixed = [[[0] + [97, 98, 99], [0] + [97, 98, 99, 100], [1], [1] + [97, 98, 99, 0, 100], [3] + [97, 98], [0] + [97, 98, 99]]]
+    for k in range(npairs):
+        if k < len(fixed):
+            rows = fixed[k]
+        else:
+            chunks = [ALPHA[r2.choice([1, 1, 2, 3, 4])] for _ in range(r2.range(0, 12))]      # whole characters: prefixes are cut at character boundaries
+            flat = lambda cs: [x for c in cs for x in c]
+            base = flat(chunks)
+            rows = []
+            for _ in range(r2.range(2, 6)):
+                w = r2.below(5)
+                if w == 0: b = list(base)
+                elif w == 1: b = flat(chunks[:r2.range(0, max(1, len(chunks)))])
+                elif w == 2: b = list(base) + ALPHA[r2.choice([1, 2, 3, 4])]
+                elif w == 3: b = list(base) + [0] + ALPHA[1]
+                else: b = ALPHA[r2.choice([1, 2, 3, 4])] + list(base)
+                rows.append([r2.choice([0, 1, 3])] + b)
+        cases.append("14 | " + " ; ".join(" ".join(map(str, r)) for r in rows))
+    return cases, {"exhaustive_len": L, "exhaustive_cases": len(seqs) * 4, "random_long": nrand, "multi_string_cases": npairs}
 
 
 def nontrivial(l):
-    b = l.split("|")[1].split()[1:]
+    b = [x for x in l.split("|")[1].split()[1:] if x != ";"]
     return any(int(x) == 0 or int(x) > 127 for x in b)
 
 
